@@ -159,6 +159,18 @@ def check(ctx, rep):
     loops = [n for n in sgm.body if isinstance(n, ast.For)]
     brk = [b for l in loops for b in own_nodes(l) if isinstance(b, ast.Break)]
     rep.ob('search.all-scalars', 'Scalars.get_memory searches all scalars', len(loops) == 1 and not brk, '', ctx.where(sgm))
+    # ---- searches over the variable tables use what they found, not what the loop ended on -------------
+    from ..defassign import loop_target_escapes
+    n_loops = 0
+    for path in (A, S, M, ST):
+        for fn in ctx.idx.functions(path):
+            n_loops += len([x for x in ast.walk(fn) if isinstance(x, ast.For)])
+            for name, node in loop_target_escapes(fn):
+                rep.ob('search.loop-variable-read-after-loop', '%s: `%s` is read after the loop that binds it' % (qualname(fn).split(':')[1], name), False,
+                       'after the loop the variable holds the last element iterated, not the one the search selected: the value is taken from the wrong variable/array',
+                       ctx.where(node))
+    rep.ob('search.loop-variable-read-after-loop', 'no loop variable of the variable-memory modules is read after its loop (%d loops)' % n_loops, True)
+    rep.floor('search.loop-variable-read-after-loop', n_loops, 15, 'for loops in the variable-memory modules')
     # ---- assignment never makes two variables share one string descriptor ----------------------------
     # LET is the only statement that stores an *expression value* that may already be another variable's
     # string: a permanent (variable-owned) or FIELD string must be deep-copied before it is stored
@@ -188,6 +200,8 @@ def variants(ctx):
         return lambda tree: f(mu.find_def(tree, f_name))
 
     return [
+        Va('dereference-reads-last-array', 'break', A,
+           lambda tree: mu.replace_expr(mu.find_def(tree, 'Arrays.dereference'), mu.text_is('self._buffers[found_name]'), 'self._buffers[name]'), expect='search.loop-variable'),
         Va('let-copies-field-strings-only', 'break', M,
            lambda tree: mu.replace_expr(mu.find_def(tree, 'DataSegment.let_'), mu.text_is('self.strings.is_permanent(value) or self.strings.is_field_string(value)'), 'self.strings.is_field_string(value)'), expect='no-alias'),
         Va('scalars-stores-offsets', 'break', S,
